@@ -645,6 +645,60 @@ pub fn strategy() -> BoxedStrategy<Scenario> {
         .boxed()
 }
 
+/// Clamp a structurally decoded scenario into the generator's domain (fuzz tier).
+pub fn fuzz_sanitize(sc: &mut Scenario) -> bool {
+    sc.tick_ms = 1 + sc.tick_ms % 20;
+    sc.gmin %= 41;
+    sc.gmax = sc.gmin + sc.gmax % 121;
+    sc.lambda_x10 = 1 + sc.lambda_x10 % 100;
+    sc.nhosts = 2 + sc.nhosts % 3;
+    sc.flows.truncate(4);
+    for f in sc.flows.iter_mut() {
+        f.src %= 4;
+        f.dst %= 4;
+        f.sends.truncate(5);
+        for s in f.sends.iter_mut() {
+            s.0 %= 26;
+            s.1 = 1 + s.1 % 5;
+        }
+        if f.sends.is_empty() {
+            f.sends.push((0, 1));
+        }
+    }
+    let fix_sel = |s: &mut Sel| match s {
+        Sel::Name(i) | Sel::Ip(i) => *i %= 4,
+        Sel::Regex(v) => {
+            v.truncate(3);
+            for i in v.iter_mut() {
+                *i %= 4;
+            }
+            if v.is_empty() {
+                v.push(0);
+            }
+        }
+    };
+    sc.ctl.truncate(3);
+    for (at, c) in sc.ctl.iter_mut() {
+        *at %= 40;
+        match c {
+            Ctl::LinkLatency { a, b, v } => {
+                fix_sel(a);
+                fix_sel(b);
+                *v %= 81;
+            }
+            Ctl::LinkMax { a, b, extra } => {
+                fix_sel(a);
+                fix_sel(b);
+                *extra %= 61;
+            }
+            Ctl::GlobalMax { extra } => *extra %= 101,
+            Ctl::Curve { x10 } => *x10 = 1 + *x10 % 100,
+        }
+    }
+    sc.ctl.sort_by_key(|c| c.0);
+    !sc.flows.is_empty()
+}
+
 fn check(tier: Tier, seed: u64) -> i32 {
     let ctx = Ctx::new("C14", tier, seed, "exploration");
     ctx.replay_corpus(&replay);
